@@ -1,9 +1,9 @@
 package mon
 
 import (
-	"os"
 	"context"
 	"fmt"
+	"os"
 	"runtime"
 	"sort"
 	"strings"
